@@ -223,6 +223,16 @@ def run_main_scenarios(spec, scratch):
                         if rc != 0 or bad_ or crc == 1:
                             failed = True
                         text.append(f'config with {cname}, options {wname}: exit {rc}, effective values {got}' + (f' — expected {exp}' if bad_ else '') + (f'; time axis against {exp["StepsPerTs"]:.0f} steps per period: {cso.strip()[-160:]}' if crc == 1 else ''))
+                # a list option given on the command line AND in the config file: the command line wins, nothing is appended
+                lst = os.path.join(work, 'list.cfg'); open(lst, 'w').write('BunchCurrent=0.002\nBunchCurrent=0.0005\noutstep=7\n')
+                out, rc, so = run(['-T', '0.011', '-c', lst, '-I', '0.001'], 'opt_list', base=['--run_anyway', '1', '-s', '32', '-N', '10'])
+                try:
+                    got_l = [l.strip().split('=', 1)[1] for l in open(out + '.cfg') if l.startswith('BunchCurrent=')]
+                except OSError:
+                    got_l = None
+                if rc != 0 or got_l is None or len(got_l) != 1 or abs(float(got_l[0]) - 0.001) > 1e-9:
+                    failed = True
+                text.append(f'BunchCurrent 0.001 on the command line, two values in the config file: exit {rc}, effective list {got_l}')
                 # default when given nowhere
                 out, rc, so = run(['-T', '0.01'], 'opt_default')
                 dflt = cfgval(out + '.cfg', 'outstep')
@@ -240,7 +250,7 @@ def run_main_scenarios(spec, scratch):
                                              ('malformed value in the config file', ['-c', os.path.join(work, 'bad2.cfg')], True), ('malformed value under a legacy name in the config file', ['-c', os.path.join(work, 'bad3.cfg')], True),
                                              ('missing config file', ['-c', os.path.join(work, 'does_not_exist.cfg')], False)):
                     open(os.path.join(work, 'bad.cfg'), 'w').write('NoSuchOption=1\n')
-                    open(os.path.join(work, 'bad2.cfg'), 'w').write('StepsPerTs=abc\n')
+                    open(os.path.join(work, 'bad2.cfg'), 'w').write('outstep=abc\n')
                     open(os.path.join(work, 'bad3.cfg'), 'w').write('steps=12.5.1\n')
                     out, rc, so = run(['-T', '0.01'] + args_, 'opt_refuse')
                     created = os.path.exists(out)
